@@ -56,6 +56,58 @@ def is_call(node, text):
     return isinstance(node, ast.Call) and ast.unparse(node.func) == text
 
 
+LOG_METHODS = ('debug', 'info', 'warning', 'error', 'critical', 'exception')
+LOG_OBJECTS = ('log', 'drivers.log', 'self.log', 'supylog')
+
+
+def is_log_call(n):
+    if not isinstance(n, ast.Call):
+        return False
+    f = ast.unparse(n.func)
+    if f == 'logging_function':          # log.firewall.logException: self.log.exception or log.exception
+        return True
+    return isinstance(n.func, ast.Attribute) and n.func.attr in LOG_METHODS and ast.unparse(n.func.value) in LOG_OBJECTS
+
+
+def log_entries(site, nodes, where, allowed_calls, fmt_re, server_names=()):
+    """the log calls among [nodes] (statements of handler bodies) as (site, const?, directives, args); every other call
+    must be in allowed_calls (fail closed: a handler that does something the model does not know is a shape error)"""
+    out = []
+    for st in nodes:
+        for n in ast.walk(st):
+            if not isinstance(n, ast.Call):
+                continue
+            if not is_log_call(n):
+                need(ast.unparse(n.func) in allowed_calls or any(n is a for c in ast.walk(st) if is_log_call(c) for a in ast.walk(c) if a is not c),
+                     '%s: handler calls %s: not a log call and not a call the model knows' % (where, ast.unparse(n.func)))
+                continue
+            need(n.args and not n.keywords and not any(isinstance(a, ast.Starred) for a in n.args),
+                 '%s: log call with no template / keywords / *args: %s' % (where, ast.unparse(n)))
+            tmpl, rest = n.args[0], n.args[1:]
+            consuming = lambda s: sum(1 for m in fmt_re.finditer(s) if m.group(1) != '%')
+            if isinstance(tmpl, ast.Constant) and isinstance(tmpl.value, str):
+                out.append((site, True, consuming(tmpl.value), len(rest)))
+                continue
+            # text in TEMPLATE position: only understood for the server-controlled names of this site
+            need(server_names, '%s: log template is not a string constant: %s' % (where, ast.unparse(tmpl)))
+            names = {x.id for x in ast.walk(tmpl) if isinstance(x, ast.Name)}
+            need(names and names <= set(server_names), '%s: log template built from %s: shape not understood' % (where, sorted(names)))
+            consts = [x.value for x in ast.walk(tmpl) if isinstance(x, ast.Constant) and isinstance(x.value, str)]
+            if isinstance(tmpl, ast.BinOp) and isinstance(tmpl.op, ast.Mod) and isinstance(tmpl.left, ast.Constant):
+                nd = 0          # Python's % consumes the directives of the constant; what is left are those of the operand
+            elif isinstance(tmpl, ast.BinOp) and isinstance(tmpl.op, ast.Add):
+                nd = sum(consuming(c) for c in consts)
+            elif isinstance(tmpl, ast.JoinedStr):
+                nd = sum(consuming(c) for c in consts)
+            elif isinstance(tmpl, ast.Call) and isinstance(tmpl.func, ast.Attribute) and tmpl.func.attr == 'format' \
+                    and isinstance(tmpl.func.value, ast.Constant):
+                nd = consuming(tmpl.func.value.value)
+            else:
+                need(False, '%s: log template shape not understood: %s' % (where, ast.unparse(tmpl)))
+            out.append((site, False, nd, len(rest)))
+    return out
+
+
 def firewalled_dict(cdef, where):
     for node in cdef.body:
         if isinstance(node, ast.Assign) and len(node.targets) == 1 and isinstance(node.targets[0], ast.Name) \
@@ -99,6 +151,7 @@ def gen_T07():
             need(False, 'SocketDriver._read: outer try has a clause the model has no body for: %s (%s)' % (c, b))
         read_catches.append(c)
     guards = {}
+    guard_bodies = {'PARSE': [], 'FEED': []}
     for key, text in (('PARSE', 'drivers.parseMsg'), ('FEED', 'self.irc.feedMsg')):
         ch = enclosing_tries(rd, lambda n, text=text: is_call(n, text))
         need(len(ch) == 1, 'SocketDriver._read: expected exactly one call of %s' % text)
@@ -110,6 +163,7 @@ def gen_T07():
             for h in t.handlers:
                 swallowing(h, 'SocketDriver._read guard around ' + text)
                 g += classes(h, 'SocketDriver._read guard')
+                guard_bodies[key] += h.body
         guards[key] = g
     # recv and the loop are inside the outer try
     fors = [n for n in outer.body if isinstance(n, ast.For)]
@@ -135,9 +189,11 @@ def gen_T07():
     need(len(ch) == 1 and len(ch[0]) == 1, 'drivers.run: expected driver.run() inside exactly one try')
     t = ch[0][0]
     run_catches = []
+    run_bodies = []
     for h in t.handlers:
         run_catches += classes(h, 'drivers.run')
         need('_deadDrivers.add(name)' in norm(h.body), 'drivers.run: handler no longer marks the driver dead: ' + norm(h.body))
+        run_bodies += h.body
     # ---- log.firewall ----
     tl = tree('src/log.py')
     fw = find_def(tl, 'firewall')
@@ -164,15 +220,18 @@ def gen_T07():
     # ---- the three inner try statements of Irc.feedMsg ----
     fm = find_def(ti, 'feedMsg', 'Irc')
     inner = {}
+    inner_bodies = {}
     for key, text in (('ADDMSG', 'self.state.addMsg'), ('INFILTER', 'callback.inFilter'), ('CALLBACK', 'callback')):
         ch = enclosing_tries(fm, lambda n, text=text: is_call(n, text))
         need(len(ch) == 1, 'Irc.feedMsg: expected exactly one call of %s' % text)
         g = []
+        inner_bodies[key] = []
         for t in ch[0]:
             need(not t.finalbody, 'Irc.feedMsg: try with finally')
             for h in t.handlers:
                 swallowing(h, 'Irc.feedMsg guard around ' + text)
                 g += classes(h, 'Irc.feedMsg')
+                inner_bodies[key] += h.body
         inner[key] = g
     need(not enclosing_tries(fm, lambda n: is_call(n, 'method'))[0], 'Irc.feedMsg: method(msg) is now inside a try')
     # ---- _nickSetters ----
@@ -223,6 +282,43 @@ def gen_T07():
     tk = find_def(ti, 'takeMsg', 'Irc')
     ch = enclosing_tries(tk, lambda n: is_call(n, 'self._truncateMsg'))
     need(len(ch) == 1 and ch[0] == [], 'Irc.takeMsg: expected one self._truncateMsg(msg) under no try')
+    # ---- every log message goes through utils.str.format: the handlers' log calls are code that can raise ----
+    import re as _re
+    fr = None
+    for node in tu.body:
+        if isinstance(node, ast.Assign) and ast.unparse(node.targets[0]) == '_formatRe':
+            need(isinstance(node.value, ast.Call) and ast.unparse(node.value.func) == 're.compile'
+                 and isinstance(node.value.args[0], ast.Constant), 'utils.str._formatRe is not re.compile(<literal>)')
+            fr = node.value.args[0].value
+    need(fr is not None, 'utils.str._formatRe not found')
+    mm = _re.match(r'^%\(\(\?:\\d\+\)\?\\\.\\d\+f\|\[([A-Za-z%]+)\]\)$', fr)
+    need(mm, 'utils.str._formatRe changed shape: %r' % fr)
+    fmt_chars = mm.group(1)
+    fmt_re = _re.compile(fr)
+    fdef = [n for n in tu.body if isinstance(n, ast.FunctionDef) and n.name == 'format']
+    need(len(fdef) == 1 and "raise ValueError('Extra format chars in format spec: %r' % s)" in ast.unparse(fdef[0])
+         and 'args.pop()' in ast.unparse(fdef[0]), 'utils.str.format: the pop-an-argument-per-directive shape changed')
+    lg = find_def(tl, '_log', 'Logger')
+    need(ast.unparse(lg.body[0]) == 'msg = format(msg, *args)', 'log.Logger._log no longer formats the message first')
+    lex = [n for n in fw.body if isinstance(n, ast.FunctionDef) and n.name == 'logException']
+    need(len(lex) == 1, 'log.firewall: logException not found')
+    hb_calls = [ast.unparse(n.func) for st in hb for n in ast.walk(st) if isinstance(n, ast.Call)]
+    need(set(hb_calls) <= {'logException', 'errorHandler'}, 'log.firewall.m: handler calls changed: %r' % hb_calls)
+    logs = []
+    logs += log_entries(0, guard_bodies['PARSE'], '_read guard around parseMsg', (), fmt_re, server_names=('line',))
+    logs += log_entries(6, guard_bodies['FEED'], '_read guard around feedMsg', (), fmt_re)
+    logs += log_entries(1, run_bodies, 'drivers.run handler', ('_deadDrivers.add',), fmt_re)
+    logs += log_entries(2, lex[0].body, 'log.firewall.logException', ('hasattr',), fmt_re)
+    logs += log_entries(3, inner_bodies['ADDMSG'], 'feedMsg addMsg handler', (), fmt_re)
+    logs += log_entries(4, inner_bodies['INFILTER'], 'feedMsg inFilter handler', (), fmt_re)
+    logs += log_entries(5, inner_bodies['CALLBACK'], 'feedMsg callback handler', (), fmt_re)
+    for h in outer.handlers:     # the outer clauses of _read: pass / self._handleSocketError(e) only (bodies pinned above)
+        need(not any(is_log_call(n) for n in ast.walk(h)), '_read: outer except clause now logs directly')
+    if run_bodies:
+        need(is_log_call(run_bodies[0].value) if isinstance(run_bodies[0], ast.Expr) else False,
+             'drivers.run: the handler no longer starts with its log call')
+    digits = [c for c in range(0x110000) if chr(c).isdecimal()]
+    need(all(_re.match(r'\d', chr(c)) for c in digits[:50]), 're \\d / isdecimal mismatch')
     # ---- CPython facts: str.strip() whitespace, capitalize() of the command ----
     ws = [c for c in range(0x110000) if chr(c).isspace()]
     need(all(len(chr(c).strip()) == 0 for c in ws), 'isspace/strip mismatch')
@@ -248,6 +344,10 @@ def gen_T07():
     out += 'Definition CALLBACK_FIREWALLED : list (list N * bool) :=\n  %s.\n' % clist(
         '(%s, %s)' % (cstr(n), cbool(h)) for n, h, _ in cb_fw)
     out += 'Definition NICK_SETTERS : list (list N) :=\n  %s.\n' % clist(cstr(x) for x in sorted(ns))
+    out += 'Definition HANDLER_LOGS : list (N * (bool * (N * N))) :=\n  %s.\n' % clist(
+        '(%d, (%s, (%d, %d)))' % (s, cbool(c), nd, na) for s, c, nd, na in logs)
+    out += 'Definition FORMAT_CHARS : list N := %s.\n' % cstr(fmt_chars)
+    out += 'Definition FORMAT_DIGITS : list N := %s.\n' % clist('%d' % c for c in digits)
     out += 'Definition TRUNCATE_ENCODES : bool := %s.\n' % cbool(trunc_encodes)
     out += 'Definition DECODE_HANDLERS : list (list N) := %s.\n' % clist(cstr(h) for h in dec_handlers)
     out += 'Definition PY_WS : list N := %s.\n' % clist('%d' % c for c in ws)
